@@ -120,7 +120,7 @@ def o8_1(tier):
     from stepup.core.exceptions import GraphError
 
     res = ObResult()
-    K, D = (4, 2) if tier == "quick" else (5, 3)
+    K, D = (4, 2) if tier == "quick" else (4, 3)
     res.bounds = f"{K} node slots, {D} dependency edges, labels {LABELS}; declaring node = root or any attached step; role symbolic"
     res.encoded += [enc(wfm.Workflow._check_declaration), enc(wfm.Workflow._existing_claim)]
     FileState, StepState, Need = enums()
@@ -176,7 +176,7 @@ def o8_2(tier):
     from stepup.core.exceptions import UsageError
 
     res = ObResult()
-    K, D = (4, 1) if tier == "quick" else (5, 2)
+    K, D = (4, 1) if tier == "quick" else (4, 2)
     res.bounds = f"{K} node slots, {D} dependency edges, labels {LABELS}; two declarations of ONE path: role in (static, output, volatile), creators = any attached steps (the same or different; RUNNING when they amend) or the root for static; both orders from the same state"
     res.encoded += [enc(wfm.Workflow.declare_static_files), enc(wfm.Workflow.amend_step), enc(wfm.Workflow._declare_file), enc(wfm.Workflow._check_declaration), enc(wfm.Workflow._existing_claim)]
     FileState, StepState, Need = enums()
@@ -281,7 +281,7 @@ def o8_3(tier):
     from stepup.core.exceptions import UsageError
 
     res = ObResult()
-    K, D = (4, 1) if tier == "quick" else (5, 2)
+    K, D = (4, 1) if tier == "quick" else (4, 2)
     res.bounds = f"{K} node slots, {D} dependency edges; ONE registered glob (pattern and stored regex 'a', registered by the attached step in slot 2); a RUNNING attached step amends 'a' as an output or a volatile output"
     res.encoded += [enc(wfm.Workflow.amend_step), enc(wfm.Workflow._raise_if_glob_match), enc(wfm.Workflow._check_declaration)]
     FileState, StepState, Need = enums()
